@@ -114,7 +114,9 @@ def eval_one(name):
         except Exception:
             pass
         results[chk] = {"rc": r.returncode, "wall_s": round(time.time() - t0), "lines": lines[:8], "violations": viol[:6]}
-        if r.returncode == 1:
+        if r.returncode == 1 and not any(l.startswith("VIOLATION") for l in lines):
+            results[chk]["rc"] = 3        # exit 1 without a VIOLATION line is a crash of the machinery, not a verdict
+        if results[chk]["rc"] == 1:
             caught_by.append(chk)
         print(name, chk, "rc=%d" % r.returncode, flush=True)
     shutil.rmtree(work, ignore_errors=True)
